@@ -1,0 +1,44 @@
+//go:build verif
+
+// Contracts for the deductive verification in /verif (govc). This file contains
+// comments only; it is compiled only with -tags verif and declares nothing.
+
+package mozilla
+
+// Representation invariant of a parsed OneCRL: blocked records are non-nil, every list
+// filed in IssuerLists holds non-nil entries with non-nil serial numbers (Parse files an
+// entry under an issuer only together with a serial number).
+// ghost.filed is an auxiliary, otherwise unconstrained relation: filedAll says it contains
+// every list of the map, okOneCRL that all its members are well formed - together exactly
+// "every list of the map is well formed" (take the set of the map's values).
+// (quantifiers over list positions are written over i+1 so that their triggers match the
+// counter of a range loop; "exists" is written as a negated forall to carry a trigger)
+//@ pred okList(l) = forall(i, -1, len(l.Entries) - 1, l.Entries[i+1] != nil && l.Entries[i+1].SerialNumber != nil, l.Entries[i+1])
+//@ pred entryOf(l, r) = !forall(i, -1, len(l.Entries) - 1, l.Entries[i+1] != r, l.Entries[i+1])
+//@ pred filedAll(c) = forallv(k, string, c.IssuerLists[k] != nil ==> ghost.filed(c, c.IssuerLists[k]))
+//@ pred okOneCRL(c) = c != nil && forall(j, -1, len(c.Blocked) - 1, c.Blocked[j+1] != nil, c.Blocked[j+1]) && filedAll(c) && forallv(l, *IssuerList, ghost.filed(c, l) ==> okList(l))
+
+// FindIssuer returns one of the lists filed in c (under the string form of the name), or nil.
+//@ func (*OneCRL).FindIssuer
+//@   requires c != nil && issuer != nil && filedAll(c)
+//@   ensures  result == nil || ghost.filed(c, result)
+//@   ensures  result == nil || !forallv(k, string, c.IssuerLists[k] != result)
+//@   ensures  forallv(k, string, c.IssuerLists[k] == nil) ==> result == nil
+//@   ensures  forallv(k, string, ghost.nameString(*issuer, k) ==> result == c.IssuerLists[k])
+//@   terminates
+
+// A reported entry is either a new record for a blocked (subject, key hash) pair that
+// matches the certificate's subject, or an element of one of the filed lists.
+//@ pred spk(r) = r.SubjectAndPublicKey
+//@ pred blockedShape(c, cert, r) = fresh(r) && spk(r) != nil && same(spk(r).RawSubject, cert.RawSubject) && spk(r).Subject == &cert.Subject && len(spk(r).PubKeyHash) == 32 && exists(j, 0, len(c.Blocked), eq(c.Blocked[j].RawSubject, cert.RawSubject) && eq(c.Blocked[j].PubKeyHash, spk(r).PubKeyHash))
+//@ pred issuerShape(c, cert, r) = forallv(k, string, ghost.nameString(cert.Issuer, k) ==> c.IssuerLists[k] != nil && !forallv(l, *IssuerList, !(l == c.IssuerLists[k] && entryOf(l, r))))
+//@ pred memberShape(c, r) = !forallv(l, *IssuerList, !(ghost.filed(c, l) && entryOf(l, r)))
+//@ func (*OneCRL).Check
+//@   uses perreturn
+//@   requires okOneCRL(c) && cert != nil && cert.SerialNumber != nil
+//@   loop 1 invariant 0 <= it && it <= len(c.Blocked)
+//@   loop 1 decreases len(c.Blocked) - it
+//@   ensures [shape] result != nil ==> blockedShape(c, cert, result) || memberShape(c, result)
+//@   ensures [issuer] result != nil ==> blockedShape(c, cert, result) || issuerShape(c, cert, result)
+//@   ensures [nolist] forallv(k, string, ghost.nameString(cert.Issuer, k) && c.IssuerLists[k] == nil && result != nil ==> fresh(result) && spk(result) != nil)
+//@   terminates
